@@ -33,6 +33,20 @@ static void flat_hosted(Src &s, Case &c)
     "std::vector driven in lock step (size, capacity >= size, element sequence, comparison results, exceptions); non-trivial = a "    \
     "reallocation happened and an insert/erase hit strictly inside a vector of >= 2 elements"
 VP_TARGET("vector_int", vector_int, "igris::vector<int>: " VEC_RULE);
+static void vector_int_big(Src &s, Case &c)
+{
+    c02::BigMode bm;
+    vector_int(s, c);
+}
+static void vector_tracked_big(Src &s, Case &c)
+{
+    c02::BigMode bm;
+    vector_tracked(s, c);
+}
+VP_TARGET("vector_int_big", vector_int_big,
+          "igris::vector<int>, the same histories with resize / reserve / count construction jumping to 250..262, 41..600 and 1000..1100 "
+          "elements (several capacity doublings, counts beyond one-byte range)");
+VP_TARGET("vector_tracked_big", vector_tracked_big, "igris::vector<Tracked> with the big-size histories of vector_int_big");
 VP_TARGET("vector_tracked", vector_tracked,
           "igris::vector<Tracked> (element owns heap memory and registers its lifetime: constructing over a live object, "
           "assigning to / moving from / reading / destroying a dead one, leaks and imbalance are failures): " VEC_RULE);
